@@ -674,6 +674,14 @@ func genC01(r *Rng, tier string) []Case {
 		m3 := cloneExchange(e)
 		m3.SignatureHeaderValue = e.SignatureHeaderValue + ", " + e.SignatureHeaderValue
 		emit(m3, ft)
+		// one Exchange object verified several times with DIFFERENT certificate fetchers (a good one, a
+		// foreign certificate, a failing fetch, the good one again): each verdict depends on its own fetch only
+		if file0 := writeFile(e); file0 != nil {
+			good, foreignTab, failing := ft, fetchTab(certURL, chainBytes([][]byte{foreign.der})), L(L(B([]byte(certURL)), L(Sym("err"))))
+			for _, seq := range [][]Sx{{good, foreignTab, failing, good}, {foreignTab, good, failing}, {failing, good, good, foreignTab}} {
+				cs = append(cs, Case{"sxg_read_verify_seq", []Sx{B(file0), Zi(t), Zi(0), statusTab(), L(seq...), xt, st}})
+			}
+		}
 		// certificate substitution: foreign certificate / key, Ed25519 cert, broken chains
 		emit(e, fetchTab(certURL, chainBytes([][]byte{foreign.der})))
 		emit(e, fetchTab(certURL, chainBytes([][]byte{sxgEdKey.der})))
@@ -724,16 +732,26 @@ func genC01(r *Rng, tier string) []Case {
 			p2[9] ^= 1
 			editCase(L(Sym("payload"), B(p2)))
 		}
-		step := 9
+		// a fixed NUMBER of positions per file (the file length varies with header values and with
+		// the length of the DER signature, and the run time must not): evenly spread, random phase
+		nflip, ncut := 1400, 230
 		if tier == "thorough" {
-			step = 1
+			nflip, ncut = len(file)*8, len(file)
 		}
-		for j := r.Intn(step); j < len(file)*8; j += step {
+		for k := 0; k < nflip; k++ {
+			j := (k*len(file)*8)/nflip + r.Intn(maxInt(1, len(file)*8/nflip))
+			if j >= len(file)*8 {
+				j = len(file)*8 - 1
+			}
 			f := append([]byte{}, file...)
 			f[j/8] ^= 1 << uint(j%8)
 			cs = append(cs, readVerifyCase(f, t, 0, ft, xt, st))
 		}
-		for j := 0; j < len(file); j += 1 + r.Intn(2*step) {
+		for k := 0; k < ncut; k++ {
+			j := (k*len(file))/ncut + r.Intn(maxInt(1, len(file)/ncut))
+			if j >= len(file) {
+				j = len(file) - 1
+			}
 			cs = append(cs, readVerifyCase(file[:j], t, 0, ft, xt, st))
 			f := append(append(append([]byte{}, file[:j]...), byte(r.U64())), file[j:]...)
 			cs = append(cs, readVerifyCase(f, t, 0, ft, xt, st))
@@ -826,7 +844,7 @@ func genC09(r *Rng, tier string) []Case {
 			one(ver, o2, d, d+100, "https://example.com/v", mid)
 		}
 		// b3 cacheability: Cache-Control directive subsets x Expires x status
-		dirs := []string{"no-store", "private", "max-age=10", "s-maxage=10", "public", "no-cache", "must-revalidate", "No-Store", " PRIVATE ", "max-age", "public=1", "x-no-store", "no-store=\"a,b\"", "", "max-age=\"1,private\""}
+		dirs := []string{"\tno-store", "private\t", "\t private", "no-store", "private", "max-age=10", "s-maxage=10", "public", "no-cache", "must-revalidate", "No-Store", " PRIVATE ", "max-age", "public=1", "x-no-store", "no-store=\"a,b\"", "", "max-age=\"1,private\""}
 		statuses := []int{200, 203, 204, 206, 300, 301, 404, 405, 410, 414, 501, 201, 202, 302, 303, 307, 308, 400, 403, 500, 503, 100, 199, 299, 418, 451, 599, 600, 999, 1000}
 		for i := 0; i < 40*len(statuses)/10; i++ {
 			o := def()
@@ -839,7 +857,7 @@ func genC09(r *Rng, tier string) []Case {
 			switch r.Intn(3) {
 			case 0:
 				if k > 0 {
-					o.extraResp = append(o.extraResp, [2]string{randCase(r, "cache-control"), strings.Join(vals, []string{",", ", ", " , "}[r.Intn(3)])})
+					o.extraResp = append(o.extraResp, [2]string{randCase(r, "cache-control"), strings.Join(vals, []string{",", ", ", " , ", ",\t", "\t,", ", \t ", ",\v", ",\r\n "}[r.Intn(8)])})
 				}
 			case 1:
 				for _, v := range vals {
